@@ -588,6 +588,11 @@ func TestC05(t *testing.T) {
 			compare("harvested-names="+val, env, dir)
 		}
 	}
+	// enumerated: the zones furthest from UTC on both sides (any instant's calendar date differs from its UTC date in
+	// one of them) and two with odd offsets / DST - a verdict or a details text that consults local time moves
+	for _, z := range []string{"Pacific/Kiritimati", "Etc/GMT+12", "Asia/Kathmandu", "America/New_York"} {
+		compare("TZ="+z, append(append([]string{}, baseEnv...), "TZ="+z), dir)
+	}
 	zonesEnv := []string{"UTC", "Asia/Kolkata", "America/New_York", "Pacific/Kiritimati", "Antarctica/Troll", ":/nonexistent", ""}
 	rapidRun(t, "environments", stats.Scale(6, 40), func(rt *rapid.T) {
 		env := []string{"PATH=/usr/bin:/bin"}
